@@ -31,13 +31,9 @@ Lemma worker_step_frame cfg w kind r s w' s1 : worker_step cfg w kind r s = Some
   s_procs s1 = s_procs s /\ s_retired s1 = s_retired s /\ s_main s1 = s_main s /\ s_rep s1 = s_rep s /\ s_todo s1 = s_todo s
   /\ s_wid s1 = s_wid s /\ s_feeder s1 = s_feeder s /\ w_id w' = w_id w.
 Proof.
-  unfold worker_step. destruct kind as [|[|[|[|[|[|?]]]]]]; destruct (w_pc w); try discriminate.
-  - destruct r; intros H; injection H as <- <-; repeat split.
-  - destruct (s_workq s) as [|[|] ?]; try discriminate; intros H; injection H as <- <-; repeat split.
-  - destruct (full _ _); try discriminate; intros H; injection H as <- <-; repeat split.
-  - intros H; injection H as <- <-; repeat split.
-  - intros H; injection H as <- <-; repeat split.
-  - intros H; injection H as <- <-; repeat split.
+  unfold worker_step. destruct kind as [|[|[|[|[|[|?]]]]]]; destruct (w_pc w); try discriminate;
+    repeat match goal with |- context [match ?x with _ => _ end] => destruct x eqn:?; try discriminate end;
+    intros H; injection H as <- <-; repeat split.
 Qed.
 
 (* ------------------------------------------------------------------ the per-worker invariant *)
@@ -51,7 +47,7 @@ Definition WInv (cfg : config) (w : worker) : Prop :=
   | WNew | WBegin => w_log w = [] /\ w_quota w = c_quota cfg /\ w_ready w = false
   | WIdle => exists n, w_log w = 0 :: repeat 1 n /\ qrem cfg w n 0 /\ w_ready w = true /\ qpos w
   | WHold _ _ => exists n, w_log w = 0 :: repeat 1 (S n) /\ qrem cfg w (S n) 1 /\ w_ready w = true /\ qpos w
-  | WRetire => exists n, w_log w = 0 :: repeat 1 n /\ qrem cfg w n 0 /\ w_ready w = true /\ w_quota w = Some 0
+  | WHoldR _ _ => exists n, w_log w = 0 :: repeat 1 (S n) /\ qrem cfg w (S n) 0 /\ w_ready w = true /\ w_quota w = Some 0
   | WEnding => exists n, w_log w = 0 :: repeat 1 n /\ qle cfg n
   | WDead => exists n, w_log w = 0 :: repeat 1 n ++ [2] /\ qle cfg n
   end.
@@ -74,16 +70,25 @@ Proof.
     + exists n. rewrite L. simpl. rewrite repeat_snoc. repeat split; auto.
       unfold qrem in *; simpl. destruct (c_quota cfg); auto. destruct Qr as (r0 & ? & ?). exists r0. split; auto. lia.
     + exists n. split; auto. unfold qle, qrem in *. destruct (c_quota cfg); auto. destruct Qr as (r0 & ? & ?). lia.
-  - destruct I as (n & L & Qr & R & Qp).
+  - (* result, not the announced one *)
+    destruct I as (n & L & Qr & R & Qp).
+    destruct (c_factory cfg && _); try discriminate.
     destruct (full _ _); try discriminate; intros H; injection H as <- <-. unfold qrem, qpos, qle in *.
     destruct (c_quota cfg) as [k|].
     + destruct Qr as (r0 & Hq & Hr). rewrite Hq in *. simpl.
       destruct (r0 - 1) as [|m] eqn:E; simpl.
-      * destruct (c_factory cfg); simpl; exists (S n); repeat split; auto; try lia. exists 0. split; [f_equal; lia | lia].
+      * exists (S n); repeat split; auto; try lia.
       * exists (S n). repeat split; auto; try lia. exists (S m). split; [reflexivity | lia].
     + rewrite Qr. simpl. exists (S n). repeat split; auto.
-  - destruct I as (n & L & Qr & R & Q0). intros H; injection H as <- <-; simpl. exists n. split; auto.
-    unfold qle, qrem in *. destruct (c_quota cfg); auto. destruct Qr as (r0 & ? & ?). lia.
+  - (* result after the retirement notice *)
+    destruct I as (n & L & Qr & R & Q0). destruct (full _ _); try discriminate; intros H; injection H as <- <-; simpl.
+    exists (S n). split; auto. unfold qle, qrem in *. destruct (c_quota cfg); auto. destruct Qr as (r0 & Hq & ?). lia.
+  - (* the retirement notice *)
+    destruct I as (n & L & Qr & R & Qp). destruct (c_factory cfg && _) eqn:E; try discriminate. intros H; injection H as <- <-; simpl.
+    exists n. repeat split; auto. unfold qrem in *. simpl. apply andb_true_iff in E. destruct E as [_ E].
+    destruct (c_quota cfg) as [k|].
+    + destruct Qr as (r0 & Hq & Hr). rewrite Hq in E. exists 0. split; auto. destruct r0 as [|[|?]]; try discriminate. lia.
+    + rewrite Qr in E. discriminate.
   - destruct I as (n & L & Ql). intros H; injection H as <- <-; simpl. exists n. rewrite L. split; auto.
   - destruct I as (n & L & Qr & R & Qp). intros H; injection H as <- <-; simpl. exists (S n). split; auto.
     unfold qle, qrem, qpos in *. destruct (c_quota cfg); auto. destruct Qr as (r0 & Hq & ?). rewrite Hq in Qp. lia.
